@@ -397,10 +397,26 @@ GenCfgMixKeys(n) == Bind({
             !.prov = [i \in 1..NP |-> [c.prov[i] EXCEPT !.st = "ok", !.kx = IF ifc = "x" THEN OneOf(HetKinds) ELSE @,
                                                         !.ky = IF ifc = "y" THEN OneOf(HetKinds) ELSE @]]]
   : c \in {GenCfg(n)}, a \in {GenPol(FALSE)}, coin \in {RandomElement({TRUE, FALSE})}, pm \in {RandomElement(3..4)}, ifc \in {RandomElement({"x", "y"})}})
+\* bias for C40 (interval boundaries): DUST scores.  Stakes of 1..3 ulava and a provider geolocation (AS) that is not a neighbour
+\* of the policy geolocation (USC / USE), so geo score = 1 and score = stake: the draws r land on interval boundaries all the time
+\* and every provider owns only 1..3 values of r.  Even n: one ordinary provider (large score) in front, so that the second slot
+\* is drawn among dust providers only.  3-4 providers, 2 slots (MaxProvidersToPair = 1 is rejected by policy validation).
+DustProv(z) == [stake |-> OneOf(<<1, 1, 2, 2, 3>>), geo |-> {32}, st |-> "ok", kx |-> 0, ky |-> 0]
+OneProv == [stake |-> 1, geo |-> {32}, st |-> "ok", kx |-> 0, ky |-> 0]
+\* n % 4 = 1: three random dust providers; n % 4 = 3: three or four providers of stake 1 (all scores = 1: the provider visited last by
+\* the cumulative scan owns exactly one value of r); even n: one ordinary provider + dust
+GenCfgDust(n) == Bind({
+  [id |-> n,
+   prov |-> (IF n % 2 = 0 THEN <<[stake |-> RandomElement(Stakes), geo |-> g, st |-> "ok", kx |-> 0, ky |-> 0]>> ELSE <<>>)
+            \o [i \in 1..k |-> IF n % 4 = 3 THEN OneProv ELSE DustProv(i)],
+   plan |-> [on |-> TRUE, gl |-> FALSE, geo |-> g, max |-> 2, mode |-> 0, sel |-> {}, reqs |-> <<>>],
+   sub |-> NoPolicy, admin |-> NoPolicy]
+  : g \in {OneOf(<< {1}, {4}, {1, 4} >>)}, k \in {IF n % 4 = 1 THEN 3 ELSE RandomElement({3, 4})}})
 JsonPol(p) == [on |-> p.on, geo |-> SortedInts(p.geo), max |-> p.max, mode |-> p.mode, sel |-> SortedInts(p.sel), reqs |-> p.reqs]
 JsonCfg(c) == [id |-> c.id, prov |-> [i \in 1..Len(c.prov) |-> [c.prov[i] EXCEPT !.geo = SortedInts(@)]],
                plan |-> JsonPol(c.plan), sub |-> JsonPol(c.sub), admin |-> JsonPol(c.admin)]
-GenInit == /\ \E n \in 1..GenN : \E c \in {IF Mode = "genunion" THEN (IF n % 2 = 0 THEN GenCfgUnion(n) ELSE GenCfgMixKeys(n))
+GenInit == /\ \E n \in 1..GenN : \E c \in {IF Mode = "gendust" THEN GenCfgDust(n)
+                                      ELSE IF Mode = "genunion" THEN (IF n % 2 = 0 THEN GenCfgUnion(n) ELSE GenCfgMixKeys(n))
                                       ELSE IF Mode = "genplain" THEN (IF n % 4 = 0 THEN GenCfgMixKeys(n) ELSE GenCfgPlain(n))
                                       ELSE IF n % 4 = 1 THEN GenCfgMixKeys(n) ELSE GenCfg(n)} : cfg = c
            /\ tab = <<>>
